@@ -13,11 +13,15 @@
     test and the jump inside the sequence) leaves the ISA value in the destination, restores rax, rdx and the stack and
     never raises #DE, under the sequence machine X86Seq.v whose instruction lengths are those the encoders are proved to
     emit; (6) the byte swaps at each width (and / mov / rol16+and / bswap) and the wide load define the ISA value; (7) the
-    epilogue restores the caller's registers and returns eBPF r0 in rax (stack machine X86Stk.v).  The other opcodes (helper
+    epilogue restores the caller's registers and returns eBPF r0 in rax (stack machine X86Stk.v); (8) composed
+    (theories/JitStep.v, JitRun.v): with eBPF register k in x86 register REGISTER_MAP[k] and R10 = packet address, the
+    sequence emitted for any accepted instruction other than a call simulates the ISA step whenever that succeeds
+    (C03_step_simulates), and the code of a whole program without calls returns the ISA's value and memory for every
+    input, budget and content of the other registers (C03_run_refines).  The other opcodes (helper
     calls: C08; local calls: C07; prologue: C09; exit = ret) and what the CPU does with the bytes are exercised by checks/C03.py (every opcode x every register
     pair x boundary immediates / displacements x control-flow shapes x 4 VM kinds) against the interpreter. *)
-From Coq Require Import ZArith List.
-From RbpfV Require Import MachInt Ebpf Isa WellFormed Verifier JitLogicProofs X86Enc JitEncProofs X86Sem X86Seq ClAluProofs ClJmpProofs JitArmsProofs JitMulDivProofs ClMiscProofs JitMiscProofs X86Stk JitFrameProofs.
+From Coq Require Import ZArith List Bool.
+From RbpfV Require Import MachInt Ebpf Cases Mem Stack Helpers InterpDefs Interp MemLemmas InterpProofs ClMemProofs ClStep ClRun JitStep JitRun Isa WellFormed Verifier JitLogicProofs X86Enc JitEncProofs X86Sem X86Seq ClAluProofs ClJmpProofs JitArmsProofs JitMulDivProofs ClMiscProofs JitMiscProofs X86Stk JitFrameProofs.
 From RbpfV.gen Require Import JitLogic JitEnc JitArms JitMulDiv JitMisc JitFrame.
 Import ListNotations.
 Open Scope Z_scope.
@@ -162,6 +166,57 @@ Example C03_muldiv_example :
   gen_jit_lddw_value (-1) (-2) = Ok (-4294967297).
 Proof. vm_compute. repeat split. Qed.
 
+(** one instruction: [jrel reg R] = every x86 register is a 64-bit value and R (REGISTER_MAP[k]) = eBPF register k.  For
+    every opcode the verifier accepts except the calls, under what the verifier establishes about the instruction: if the
+    ISA step succeeds, the emitted sequence ends -- at the ISA's next pc, with the ISA's memory -- in a related register
+    file with R10 unchanged; `exit` returns the ISA's value.  (The JIT makes no bounds check: nothing is said about steps
+    the ISA refuses.  A packet-relative load with a negative immediate is excluded: the JIT sign-extends it.) *)
+Theorem C03_step_simulates : forall E i reg R next fidx stacks m st,
+  ArmBase.regs_ok reg -> jrel reg R -> R 10 = e_mem_base E -> mem_ok m ->
+  wf_insn i -> 0 <= dst i <= 10 -> 0 <= src i <= 10 -> In (opc i) cl_ops -> opc i <> op_call ->
+  ((opc i =? op_le) || (opc i =? op_be) = true -> In (imm i) [16; 32; 64]) ->
+  (opc i = op_lddw -> wf_insn (insn_at (e_prog E) next)) ->
+  (opc i = op_exit -> fidx = 0) ->
+  (opc i mod 8 = 0 -> 0 <= imm i) ->
+  isa_exec E i reg next fidx stacks m = Ok st ->
+  match st with
+  | SNext (reg', pc', _, _, m') =>
+      ArmBase.regs_ok reg' -> exists R', jit_exec E i next R m = Ok (JNext R' pc' m') /\ jrel reg' R' /\ R' 10 = R 10
+  | SRet r m' => jit_exec E i next R m = Ok (JRet r m')
+  end.
+Proof. exact jit_exec_simulates. Qed.
+
+(** whole executions: every accepted program without calls, every input, every budget, every register file the prologue
+    can leave (R10 = packet address, rbp = top of the 512-byte stack: C09_jit_prologue_...; all other registers arbitrary) *)
+Theorem C03_run_refines : forall E m0 fuel R0 r m',
+  bytes_ok (e_prog E) -> acc (e_prog E) -> env_ok E -> mem_ok m0 ->
+  (forall k, In k (starts (e_prog E)) ->
+     opc (insn_at (e_prog E) k) <> op_call /\ (opc (insn_at (e_prog E) k) mod 8 = 0 -> 0 <= imm (insn_at (e_prog E) k))) ->
+  (forall x, 0 <= R0 x < 2 ^ 64) -> R0 10 = e_mem_base E -> R0 (ez 10) = e_stack_base E + e_stack_len E ->
+  isa_steps fuel E (regs_of R0, 0, 0, stacks0, m0) = ODone r m' ->
+  jit_steps fuel E (R0, 0, m0) = ODone r m'.
+Proof. exact jit_run_refines. Qed.
+
+(** non-vacuity: ldxw r0,[r1+0]; add r0,5; stxw [r10-4],r0; ldxw r3,[r10-4]; mov r0,r3; be32 r0; exit on the packet
+    01 02 03 04, from a register file with junk in the unmapped and unwritten registers *)
+Definition jrun_prog : list Z := hexbytes 56 0x61100000000000000700000005000000630afcff0000000061a3fcff00000000bf30000000000000dc000000200000009500000000000000.
+Definition jrun_env : ienv :=
+  mk_env jrun_prog (fun _ => None) (usage_map jrun_prog None)
+         {| r_base := 0x10000000; r_data := [] |} {| r_base := 0x20000000; r_data := [1; 2; 3; 4] |} 0x30000000 [].
+Definition jrun_mem : mem :=
+  mk_mem {| r_base := 0x10000000; r_data := [] |} {| r_base := 0x20000000; r_data := [1; 2; 3; 4] |} 0x30000000
+         {| r_base := 0x40000000; r_data := [] |}.
+Definition jrun_R0 : regs := fun x => if x =? 10 then 0x20000000 else if x =? 7 then 0x20000000 else if x =? 5 then 0x30000200 else 0xdead0000 + x.
+Example C03_run_example :
+  accb jrun_prog = true /\ bytes_okb jrun_prog = true /\ jrun_R0 10 = e_mem_base jrun_env /\
+  jrun_R0 (ez 10) = e_stack_base jrun_env + e_stack_len jrun_env /\
+  (exists m, isa_steps 100 jrun_env (regs_of jrun_R0, 0, 0, stacks0, jrun_mem) = ODone 0x06020304 m /\
+             jit_steps 100 jrun_env (jrun_R0, 0, jrun_mem) = ODone 0x06020304 m).
+Proof.
+  split; [vm_compute; reflexivity|]. split; [vm_compute; reflexivity|]. split; [reflexivity|]. split; [vm_compute; reflexivity|].
+  eexists. split; vm_compute; reflexivity.
+Qed.
+
 Print Assumptions C03_register_map.
 Print Assumptions C03_jump_fixup.
 Print Assumptions C03_enc_alu.
@@ -179,3 +234,5 @@ Print Assumptions C03_wide_load.
 Print Assumptions C03_epilogue.
 Print Assumptions C03_jump_targets.
 Print Assumptions C03_call_targets.
+Print Assumptions C03_step_simulates.
+Print Assumptions C03_run_refines.
